@@ -738,7 +738,7 @@ class SymExec:
             st.store[root] = val
             if root[0] == "L" and isinstance(val, tuple) and val and val[0] not in ("int", "ptr"):
                 ty = fr.body.locals[root[2]]["ty"]
-                if not ty.startswith("&"):
+                if not ty.startswith("&") and "?" not in ty:
                     self.types.setdefault(val, ty)
         else:
             base = st.store.get(root)
@@ -1687,6 +1687,8 @@ class SymExec:
                 return ("iter", ("array", tuple(("ref", e) for e in v[1])))
             if a[0] == "ref":
                 return ("iter", a)        # `X.iter()` on a constant array reads like `for x in &X`
+        if name == "core::iter::traits::iterator::Iterator::rev" and len(args) == 1 and args[0][0] == "iter":
+            return ("iter", ("rev", args[0][1]))
         if name == "core::iter::traits::iterator::Iterator::zip" and len(args) == 2 and args[0][0] in ("iter",):
             b = args[1]
             if b[0] == "iter":
